@@ -67,9 +67,10 @@ type Counter struct {
 	name string
 	file *file
 
-	next  atomic.Pointer[Counter]
-	state counterState
-	ptr   counterPtr
+	next   atomic.Pointer[Counter]
+	linked atomic.Bool // c is reachable from file.counters (set by file.register)
+	state  counterState
+	ptr    counterPtr
 }
 
 func (c *Counter) Name() string {
@@ -156,7 +157,21 @@ func (c *Counter) Add(n int64) {
 	if n == 0 {
 		return
 	}
-	c.file.register(c)
+	if !c.file.register(c) {
+		// Another goroutine is half-way through registering c. Until c is
+		// reachable from the file's list, invalidateCounters cannot visit it,
+		// so c must not cache a pointer into a mapping that may be closed:
+		// park the count. The registering goroutine refreshes c when it is
+		// done; if it finished before the count was parked, flush it here
+		// (c may have a pointer by now, which refresh alone would keep).
+		for state := c.state.load(); !c.state.update(&state, state.addExtra(uint64(n))); state = c.state.load() {
+		}
+		if c.linked.Load() {
+			c.invalidate()
+			c.refresh()
+		}
+		return
+	}
 
 	state := c.state.load()
 	for ; ; state = c.state.load() {
